@@ -51,7 +51,7 @@ PID = 'C11'
 #               ForEach cases, control cases, processes, watchdog (s)
 TIERS = {
     'quick': dict(foreach=360, control=480, procs=8, watchdog=180),
-    'thorough': dict(foreach=3000, control=4000, procs=12, watchdog=300),
+    'thorough': dict(foreach=2000, control=2800, procs=12, watchdog=300),
 }
 WORKERS_PER_COMPILER = 3
 ERR_FLOOR = 1e-6          # numerical floor of a degree-2 distance near 0
@@ -245,7 +245,6 @@ def flat_unitary(c: Any) -> np.ndarray:
 
 
 def eval_foreach(case: dict[str, Any], cin: Any, cout: Any, data: Any, log: list[Any]) -> tuple[list[dict[str, Any]], Counter, dict[str, Any]]:
-    from bqskit.compiler.machine import MachineModel
     from bqskit.ir.circuit import Circuit
     from bqskit.ir.gates import CircuitGate
     from bqskit.ir.operation import Operation
@@ -348,7 +347,7 @@ def eval_foreach(case: dict[str, Any], cin: Any, cout: Any, data: Any, log: list
         # ---- (c) decisions vs the replace filter
         if p['rf'][0] == 'named':
             method = p['rf'][1]
-            mm = MachineModel(n, sorted(medges)) if n > 1 else MachineModel(n)
+            mm = wl._line_model(n, mkind)  # built exactly as SetData builds it in the worker
             fn = gen_replace_filter(method, mm)
             for i, (cyc, op) in enumerate(blocks):
                 want = bool(fn(expected[i]['out'], op))
